@@ -2,7 +2,8 @@
 known findings, evidence files, verdict lines."""
 import json, os, re, subprocess, sys, time, hashlib, shutil
 
-ROOT = '/verif'
+# the directory this script lives in (/verif for the registered commands; a snapshot worktree under `vp run`)
+ROOT = os.path.dirname(os.path.dirname(os.path.abspath(__file__)))
 SPEC = ROOT + '/spec'
 HARNESS = ROOT + '/harness'
 BIN = HARNESS + '/target/release/mlverif'
